@@ -41,8 +41,9 @@ def judge(ctx) -> None:
         last = w.link.hit_log[-1]
         locus += f" last@src={last[3]},dst={last[4]}"
     ok_idle = w.all_idle()
-    fin_a = [i for i in w.ind_log if i[0] == "a" and i[1][0] == "finished"]
-    fin_b = [i for i in w.ind_log if i[0] == "b" and i[1][0] == "finished"]
+    base = ctx.info.get("base_ind", 0)  # indications of a prelude transaction do not count
+    fin_a = [i for i in w.ind_log[base:] if i[0] == "a" and i[1][0] == "finished"]
+    fin_b = [i for i in w.ind_log[base:] if i[0] == "b" and i[1][0] == "finished"]
     sa = w.a.handlers["src"].step.name
     sb = w.b.handlers["dst"].step.name
     if not ok_idle:
